@@ -55,7 +55,8 @@ tie-breaks, reworded messages). Each was confirmed to pass the 42 tests (`tools/
 and then run against the quick tier of **all twenty** checks (`tools/benignlab.sh`); a check that
 raises an alarm on one of them either depends on an unspecified detail (a false alarm: the check is
 corrected) or the change does break a property after all (then it is a seeded change, not a benign
-one). Kept under `/verif/benign/<id>/`.
+one). Kept under `/verif/benign/<id>/`. After the last strengthening of the checks all eighty were run once more against the
+final checks (`out/benignfinal*.tsv`): seventy-nine raise nothing, `C01-b1` is reported by C03 (see its verdict).
 
 {chr(10).join(brow)}
 
